@@ -165,6 +165,10 @@ func NewProofG1(commitment *ml.G1, responses []*ml.Zr) *ProofG1 {
 
 // Verify verifies the ProofG1.
 func (pg1 *ProofG1) Verify(bases []*ml.G1, commitment *ml.G1, challenge *ml.Zr) error {
+	if len(bases) != len(pg1.responses) {
+		return errors.New("number of responses differs from the number of bases")
+	}
+
 	contribution := pg1.getChallengeContribution(bases, commitment, challenge)
 	contribution.Sub(pg1.commitment)
 
